@@ -232,6 +232,18 @@ psf_chunk_id_is_printable (const SF_CHUNK_INFO * chunk_info)
 } /* psf_chunk_id_is_printable */
 
 int
+psf_chunk_id_is_one_of (const SF_CHUNK_INFO * chunk_info, const uint32_t * markers, int count)
+{	uint32_t marker = marker_of_str (chunk_info->id) ;
+	int k ;
+
+	for (k = 0 ; k < count ; k++)
+		if (markers [k] == marker)
+			return SF_TRUE ;
+
+	return SF_FALSE ;
+} /* psf_chunk_id_is_one_of */
+
+int
 psf_save_write_chunk (WRITE_CHUNKS * pchk, const SF_CHUNK_INFO * chunk_info)
 {	uint32_t marker, len ;
 
